@@ -31,6 +31,7 @@ def prop_funcs(ctx, cname):
 
 
 def run(ctx):
+    integrity(ctx, ['crysp/bits.py', 'crysp/mode.py', 'crysp/skein.py', 'crysp/threefish.py'])
     ctx.rule('C12-R1 tweak layout')
 
     def tweak():
